@@ -768,9 +768,10 @@ def check_property(prop, tier, only=None, keep=False):
     fixed_regions = {k["region"]: k for k in known if k.get("status") == "fixed" and k.get("region")}
     jobs = []
     for q in queries:
-        jobs.append((q, ("main",)))
-        for w in q.witness:
-            jobs.append((q, ("witness", w)))
+        if not q.no_main:     # no_main: the query's whole (concrete) case lies inside a known-finding region; only the twin runs
+            jobs.append((q, ("main",)))
+            for w in q.witness:
+                jobs.append((q, ("witness", w)))
         for rg in q.regions:
             if rg in known_regions:
                 jobs.append((q, ("kf", rg)))
@@ -866,6 +867,10 @@ def check_property(prop, tier, only=None, keep=False):
             else:
                 unusable.append("%s %s: %s" % (qn, r["variant"], r.get("why")))
 
+    # a finding is demonstrated when any twin fails inside its region; twins of queries that cannot
+    # reach the region pass vacuously and say nothing; STALE only when no twin fails
+    shown = {l.split()[2] for l in kf_lines if l.startswith("KNOWN-FINDING:")}
+    kf_lines = [l for l in kf_lines if not (l.startswith("KNOWN-FINDING-STALE:") and l.split()[2] in shown)]
     for l in sorted(set(kf_lines)):
         say(l)
     for v in violations:
